@@ -1,10 +1,254 @@
-/- Driver for `kind = "c12"` (and `"c12:…"`) cases. -/
+/- Driver for `kind = "c12"` (and `"c12:…"`) cases: runs the C12 model (`Model/Aead.lean`) instantiated with
+   the executable specifications of `AskarModel/Crypto/`. -/
 import Driver.Common
+import AskarModel.Model.Aead
+import AskarModel.Crypto.Hmac
+import AskarModel.Crypto.KeyWrap
+import AskarModel.Crypto.Gcm
+import AskarModel.Crypto.ChaChaPoly
+import AskarModel.Crypto.ConcatKdf
 
 open Lean
+open Askar Askar.Aead Askar.Crypto
 
 namespace Driver.C12
 
-def runCase (_j : Json) : Json := jerr "not implemented"
+/-! ### the primitives, instantiated by the specifications -/
+
+def aesCipher : BlockCipher := ⟨Aes.encryptBlockL, Aes.decryptBlockL⟩
+
+def gcmPrim : AeadPrim :=
+  ⟨16,
+   fun k n a m =>
+     if m.length > Gcm.maxPlainBytes || a.length > Gcm.maxAadBytes then none else
+       let r := Gcm.aesGcmEncrypt k.toByteArray n.toByteArray a.toByteArray m.toByteArray
+       some (r.1.toList, r.2.toList),
+   fun k n a c t =>
+     (Gcm.aesGcmDecrypt k.toByteArray n.toByteArray a.toByteArray c.toByteArray t.toByteArray).map ByteArray.toList⟩
+
+def c20pPrim : AeadPrim :=
+  ⟨16,
+   fun k n a m =>
+     if m.length > ChaChaPoly.maxPlainBytes then none else
+       let r := ChaChaPoly.encrypt k.toByteArray n.toByteArray a.toByteArray m.toByteArray
+       some (r.1.toList, r.2.toList),
+   fun k n a c t =>
+     (ChaChaPoly.decrypt k.toByteArray n.toByteArray a.toByteArray c.toByteArray t.toByteArray).map ByteArray.toList⟩
+
+def xc20pPrim : AeadPrim :=
+  ⟨16,
+   fun k n a m =>
+     if m.length > ChaChaPoly.maxPlainBytes then none else
+       let r := ChaChaPoly.xEncrypt k.toByteArray n.toByteArray a.toByteArray m.toByteArray
+       some (r.1.toList, r.2.toList),
+   fun k n a c t =>
+     (ChaChaPoly.xDecrypt k.toByteArray n.toByteArray a.toByteArray c.toByteArray t.toByteArray).map ByteArray.toList⟩
+
+def prims : Prims :=
+  { aes128 := aesCipher, aes256 := aesCipher,
+    hmac256 := ⟨32, Hmac.hmacSha256L⟩, hmac512 := ⟨64, Hmac.hmacSha512L⟩,
+    gcm128 := gcmPrim, gcm256 := gcmPrim, c20p := c20pPrim, xc20p := xc20pPrim }
+
+/-! ### canonical forms -/
+
+/-- `From<askar_crypto::Error> for aries_askar::Error`: kind mapping -/
+def kindName : Kind → String
+  | .Custom => "Custom"
+  | .Encryption => "Encryption"
+  | .ExceededBuffer | .Unexpected => "Unexpected"
+  | .Invalid | .InvalidKeyData | .InvalidNonce | .MissingSecretKey | .Usage => "Input"
+  | .Unsupported => "Unsupported"
+
+/-- `askar_crypto::ErrorKind::as_str` -/
+def kindText : Kind → String
+  | .Custom => "Custom error"
+  | .Encryption => "Encryption error"
+  | .ExceededBuffer => "Exceeded buffer size"
+  | .Invalid => "Invalid input"
+  | .InvalidNonce => "Invalid encryption nonce"
+  | .InvalidKeyData => "Invalid key data"
+  | .MissingSecretKey => "Missing secret key"
+  | .Unexpected => "Unexpected error"
+  | .Usage => "Usage error"
+  | .Unsupported => "Unsupported"
+
+def msgText (e : Err) : String :=
+  match e.msg with
+  | .default => kindText e.kind
+  | .cbcTagSize => "AES-CBC-HMAC tag size exceeds maximum supported"
+  | .cbcAadSize => "AES-CBC-HMAC AAD size exceeds maximum supported"
+  | .cbcEncrypt => "AES-CBC encryption error"
+  | .cbcDecrypt => "AES-CBC decryption error"
+  | .aeadEncrypt => "AEAD encryption error"
+  | .aeadDecrypt => "AEAD decryption error"
+  | .invalidSize => "Invalid size for encrypted data"
+  | .kwNonce => "Custom nonce not supported"
+  | .kwAad => "AAD not supported"
+  | .kwLen => "Data length must be a multiple of 8 bytes"
+  | .aeadUnsupported => "AEAD is not supported for this key type"
+
+def jerr2 (e : Err) : Json := Json.mkObj [("err", .str (kindName e.kind)), ("msg", .str (msgText e))]
+
+def jres {α : Type} (f : α → Json) : Res α → Json
+  | .ok a => f a
+  | .err e => jerr2 e
+  | .panic p => Json.mkObj [("panic", .str (reprStr p))]
+
+/-- outcome code used in run-length encoded sweeps -/
+def code {α : Type} (okCode : α → String) : Res α → String
+  | .ok a => okCode a
+  | .err e => "E:" ++ kindName e.kind ++ ":" ++ msgText e
+  | .panic _ => "panic"
+
+def rle (xs : List String) : Json :=
+  let rec go : List String → Option (String × Nat) → List Json → List Json
+    | [], none, acc => acc.reverse
+    | [], some (s, n), acc => (Json.arr #[.str s, jnat n] :: acc).reverse
+    | x :: r, none, acc => go r (some (x, 1)) acc
+    | x :: r, some (s, n), acc => if x == s then go r (some (s, n + 1)) acc else go r (some (x, 1)) (Json.arr #[.str s, jnat n] :: acc)
+  .arr (go xs none []).toArray
+
+def algOf (s : String) : Option Alg :=
+  match s with
+  | "a128gcm" => some .A128Gcm | "a256gcm" => some .A256Gcm
+  | "a128cbchs256" => some .A128CbcHs256 | "a256cbchs512" => some .A256CbcHs512
+  | "a128kw" => some .A128Kw | "a256kw" => some .A256Kw
+  | "c20p" => some .C20P | "xc20p" => some .XC20P | "ed25519" => some .Ed25519
+  | _ => none
+
+/-- flip bit `i` (bit 0 = least significant bit of byte 0) -/
+def flipBit (b : Bytes) (i : Nat) : Bytes := b.set (i / 8) ((b.getD (i / 8) 0) ^^^ (UInt8.ofNat (2 ^ (i % 8))))
+
+/-- deterministic pattern of length n -/
+def pattern (fill n : Nat) : Bytes := (List.range n).map fun i => UInt8.ofNat ((fill + 7 * i) % 256)
+
+def okSame (expect : Bytes) (got : Bytes) : String := if got == expect then "ok:same" else "ok:diff"
+
+/-! ### operations -/
+
+def encJson (k : Key) (msg nonce aad : Bytes) : Json :=
+  let randomNonce := nonce.isEmpty && k.alg.params.1 > 0
+  let rnd := zeros k.alg.params.1
+  match aeadEncrypt prims rnd k msg nonce aad with
+  | .ok e =>
+    if randomNonce then
+      Json.mkObj [("random_nonce", .bool true), ("buf_len", jnat e.buffer.length), ("tag_pos", jnat e.tagPos), ("nonce_pos", jnat e.noncePos)]
+    else
+      let ct := e.ciphertext
+      let tag := e.tag
+      let dec := match ct, tag, e.nonce with
+        | .ok c, .ok t, .ok n => jres (fun pt => Json.mkObj [("pt", jvalue pt)]) (aeadDecrypt d5Fixed prims k c t n aad)
+        | _, _, _ => Json.mkObj [("panic", .str "accessor")]
+      Json.mkObj [("ct", jres jvalue ct), ("tag", jres jhex tag), ("nonce", jres jhex e.nonce),
+                  ("tag_pos", jnat e.tagPos), ("nonce_pos", jnat e.noncePos), ("buf", jvalue e.buffer), ("dec", dec)]
+  | .err er => jerr2 er
+  | .panic p => Json.mkObj [("panic", .str (reprStr p))]
+
+def decJson (k : Key) (ct tag nonce aad : Bytes) : Json :=
+  jres (fun pt => Json.mkObj [("pt", jvalue pt)]) (aeadDecrypt d5Fixed prims k ct tag nonce aad)
+
+/-- encrypt, then decrypt every single-bit flip of ct‖tag, of the nonce and of the aad -/
+def flipsJson (k : Key) (msg nonce aad : Bytes) : Json :=
+  match aeadEncrypt prims [] k msg nonce aad with
+  | .ok e =>
+    match e.ciphertext, e.tag with
+    | .ok ct, .ok tag =>
+      let whole := ct ++ tag
+      let d (c t n a : Bytes) := code (okSame msg) (aeadDecrypt d5Fixed prims k c t n a)
+      let a := (List.range (8 * whole.length)).map fun i => let w := flipBit whole i; d (w.take ct.length) (w.drop ct.length) nonce aad
+      let b := (List.range (8 * nonce.length)).map fun i => d ct tag (flipBit nonce i) aad
+      let c := (List.range (8 * aad.length)).map fun i => d ct tag nonce (flipBit aad i)
+      Json.mkObj [("base", .str (d ct tag nonce aad)), ("ct_tag", rle a), ("nonce", rle b), ("aad", rle c)]
+    | _, _ => Json.mkObj [("panic", .str "accessor")]
+  | .err er => jerr2 er
+  | .panic p => Json.mkObj [("panic", .str (reprStr p))]
+
+/-- encrypt, then decrypt every truncation of ct‖tag and every extension by a prefix of `ext` (passed as one
+    combined buffer, empty separate tag) -/
+def resizeJson (k : Key) (msg nonce aad ext : Bytes) : Json :=
+  match aeadEncrypt prims [] k msg nonce aad with
+  | .ok e =>
+    match e.ciphertext, e.tag with
+    | .ok ct, .ok tag =>
+      let whole := ct ++ tag
+      let d (c : Bytes) := code (okSame msg) (aeadDecrypt d5Fixed prims k c [] nonce aad)
+      let a := (List.range whole.length).map fun n => d (whole.take n)
+      let b := (List.range ext.length).map fun n => d (whole ++ ext.take (n + 1))
+      Json.mkObj [("base", .str (d whole)), ("trunc", rle a), ("extend", rle b)]
+    | _, _ => Json.mkObj [("panic", .str "accessor")]
+  | .err er => jerr2 er
+  | .panic p => Json.mkObj [("panic", .str (reprStr p))]
+
+/-- every nonce length 0 … max for encryption and for decryption of a valid ciphertext -/
+def nonceLensJson (k : Key) (msg aad : Bytes) (max fill : Nat) : Json :=
+  let good := pattern fill k.alg.params.1
+  let valid : Bytes := match aeadEncrypt prims [] k msg good aad with
+    | .ok e => e.buffer.take e.noncePos
+    | _ => pattern fill 40
+  let encs := (List.range (max + 1)).map fun n =>
+    if n == 0 && k.alg.params.1 > 0 then
+      code (fun (e : Encrypted) => "random:" ++ toString e.buffer.length) (aeadEncrypt prims (zeros k.alg.params.1) k msg [] aad)
+    else code (fun (e : Encrypted) => "ok:" ++ toString e.buffer.length) (aeadEncrypt prims [] k msg (pattern fill n) aad)
+  let decs := (List.range (max + 1)).map fun n => code (okSame msg) (aeadDecrypt d5Fixed prims k valid [] (pattern fill n) aad)
+  Json.mkObj [("enc", rle encs), ("dec", rle decs)]
+
+def wrapJson (k : Key) (palg : Alg) (pkey nonce : Bytes) : Json :=
+  match fromSecretBytes palg pkey with
+  | .ok payload =>
+    match wrapKey prims k payload nonce with
+    | .ok e =>
+      let ct := e.ciphertext
+      let tag := e.tag
+      let un := match ct, tag, e.nonce with
+        | .ok c, .ok t, .ok n => jres (fun (q : Key) => Json.mkObj [("key", jhex q.bytes)]) (unwrapKey d5Fixed prims k palg c t n)
+        | _, _, _ => Json.mkObj [("panic", .str "accessor")]
+      Json.mkObj [("ct", jres jvalue ct), ("tag", jres jhex tag), ("nonce", jres jhex e.nonce),
+                  ("tag_pos", jnat e.tagPos), ("nonce_pos", jnat e.noncePos), ("buf", jvalue e.buffer), ("unwrap", un)]
+    | .err er => jerr2 er
+    | .panic p => Json.mkObj [("panic", .str (reprStr p))]
+  | .err er => Json.mkObj [("payload_err", jerr2 er)]
+  | .panic p => Json.mkObj [("panic", .str (reprStr p))]
+
+def runOp (k : Key) (op : Json) : Json :=
+  match str! op "op" with
+  | "params" => jres (fun (p : Nat × Nat) => Json.mkObj [("nonce", jnat p.1), ("tag", jnat p.2)]) (aeadParams k)
+  | "padding" => Json.mkObj [("pad", jnat (aeadPadding k (nat! op "len")))]
+  | "enc" => encJson k (value! op "msg") (hex! op "nonce") (value! op "aad")
+  | "dec" => decJson k (value! op "ct") (hex! op "tag") (hex! op "nonce") (value! op "aad")
+  | "flips" => flipsJson k (value! op "msg") (hex! op "nonce") (value! op "aad")
+  | "resize" => resizeJson k (value! op "msg") (hex! op "nonce") (value! op "aad") (hex! op "ext")
+  | "nonce_lens" => nonceLensJson k (value! op "msg") (value! op "aad") (nat! op "max") (nat! op "fill")
+  | "wrap" =>
+    match algOf (str! op "palg") with
+    | some palg => wrapJson k palg (hex! op "pkey") (hex! op "nonce")
+    | none => jerr "bad palg"
+  | "unwrap" =>
+    match algOf (str! op "alg") with
+    | some alg => jres (fun (q : Key) => Json.mkObj [("key", jhex q.bytes)]) (unwrapKey d5Fixed prims k alg (value! op "ct") (hex! op "tag") (hex! op "nonce"))
+    | none => jerr "bad alg"
+  | o => jerr ("unknown op " ++ o)
+
+def selfTests : Json :=
+  Json.mkObj [("sha2", .bool Sha2.selfTest), ("hmac", .bool Hmac.selfTest), ("aes", .bool Aes.selfTest),
+              ("cbc", .bool Cbc.selfTest), ("keywrap", .bool KeyWrap.selfTest), ("gcm", .bool Gcm.selfTest),
+              ("chacha20", .bool ChaCha20.selfTest), ("poly1305", .bool Poly1305.selfTest),
+              ("chachapoly", .bool ChaChaPoly.selfTest), ("concatkdf", .bool ConcatKdf.selfTest)]
+
+def runCase (j : Json) : Json :=
+  match str! j "kind" with
+  | "c12:selftest" => selfTests
+  | "c12:keylens" =>
+    match algOf (str! j "alg") with
+    | none => jerr "bad alg"
+    | some alg =>
+      rle ((List.range (nat! j "max" + 1)).map fun n => code (fun (_ : Key) => "ok") (fromSecretBytes alg (pattern (nat! j "fill") n)))
+  | _ =>
+    match algOf (str! j "alg") with
+    | none => jerr "bad alg"
+    | some alg =>
+      match fromSecretBytes alg (hex! j "key") with
+      | .ok k => .arr ((Json.str "ok") :: (arr! j "ops").map (runOp k)).toArray
+      | .err e => .arr (jerr2 e :: (arr! j "ops").map fun _ => Json.null).toArray
+      | .panic p => Json.mkObj [("panic", .str (reprStr p))]
 
 end Driver.C12
